@@ -302,6 +302,9 @@ func layerT(l *core.Local, ki, mask, ni int, menu []string, sample bool) {
 		// every non-empty value issued here, sent back
 		var req []sent
 		for i, s := range set {
+			if wire[i] == s.V || (distinctive(s.V) && strings.Contains(wire[i], s.V)) {
+				continue // reported by checkResp; what the handler would get back says nothing more
+			}
 			if s.V != "" && !excepted(mask, s.N) {
 				req = append(req, sent{Name: s.N, Text: wire[i], Mode: mMust, Must: s.V, Kind: "issued"})
 			}
